@@ -694,6 +694,23 @@ pub fn analyze_tuple_pattern_for_complement(
         return None;
     }
 
+    // A name bound twice is an equality requirement between the two positions, so the pattern
+    // can fail on a value of the constrained type: no complement can be taken from it.
+    let mut names = std::collections::HashSet::new();
+    for field in &tuple_pattern.fields {
+        let nested = match &field.pattern {
+            ast::Match::Tuple(inner) => inner.fields.iter().map(|f| &f.pattern).collect(),
+            other => vec![other],
+        };
+        for sub in nested {
+            if let ast::Match::Identifier(name, _) = sub
+                && !names.insert(name.clone())
+            {
+                return None;
+            }
+        }
+    }
+
     let mut constraining: Option<(usize, usize)> = None;
 
     for (idx, field) in tuple_pattern.fields.iter().enumerate() {
